@@ -17,31 +17,38 @@ import (
 //
 // One case = one World: local server features S0 [1]/1 (DeviceClassification: user data writable, manufacturer
 // data read-only), S1 [1]/2 (Identification: list writable, session list not added) and S2 [2]/1
-// (DeviceClassification: manufacturer data writable, user data never added), three peers with identical numbering and two client features
-// per server type ([1]/x and [1,1]/x), subscribers from every peer on every server feature. A history of
-// 15-30 operations {bind, unbind, disconnect, reconnect + re-announce, re-announcement without reconnect, remote entity
-// removed / added, write (also with a 'function' element that disagrees with / repeats the data element's function)}
+// (DeviceClassification: manufacturer data writable, user data never added), three peers with identical numbering and three client features
+// per server type ([1]/x, [1,1]/x and [2]/x), subscribers from every peer on every server feature. A history of
+// 15-30 operations {bind, unbind, disconnect, reconnect + re-announce, re-announcement without reconnect, remote entities
+// removed (one, two or three with ONE notify: a partial one naming them removed, or a full one that no longer lists them) / added,
+// write (also with a 'function' element that disagrees with / repeats the data element's function; source device own / omitted /
+// foreign, destination device given / omitted; unauthorised ones also with delete and selector filters)}
 // drives a shadow model = reference binding registry (holder per server feature) /\ write flag of the function.
-// Around every write: DataCopy of every function of every server feature before and after, the taps of all
+// Around every write: DataCopy of the four functions of both feature types on every server feature before and after, the taps of all
 // peers, the core event sink.
 
 func init() {
 	rig.Register(&rig.Check{
 		ID:    "C03",
 		Floor: 450,
-		Rule: "case = one World (3 local server features mixing writable, read-only and not-added functions; 3 identically numbered peers x 2 client features per type; subscribers on every server feature) and a seeded history of 15-30 operations " +
+		Rule: "case = one World (3 local server features mixing writable, read-only and not-added functions; 3 identically numbered peers x 3 client features per type in the entities [1], [1,1] and [2]; subscribers on every server feature) and a seeded history of 15-30 operations " +
 			"{bind, bind by another peer, unbind, disconnect, reconnect + re-announce, re-announcement WITHOUT reconnect (the detailed discovery reply once more, or a partial notify lastStateChange=added for a known entity; same addresses, roles and types, in every second one new description texts; by a binding holder or a bystander; the shadow registry is unchanged by it), " +
-			"remote entity [1] or [1,1] removed / added by discovery notify, write by the holder / a non-holder with the same numbers / the holder's other client feature / to a read-only function / to a function not added / " +
+			"remote entities removed by ONE discovery notify that takes away one, two or three of [1], [1,1], [2] at once - a partial notify listing them with lastStateChange=removed (every sixth one names an entity the stack never knew first) or a FULL (filter-less) notify of the remaining tree that no longer lists them (and may list an absent one again); " +
+			"the shadow model is the statement's: the writer's entity disappeared => its binding is gone for good => its writes are rejected and change nothing, also after the entity was announced again; the other bindings of that peer and of the others stay -, remote entity added by partial notify, write by the holder / a non-holder with the same numbers / the holder's other client feature / to a read-only function / to a function not added / " +
 			"with a 'function' element that names a WRITABLE function while the data element is that of a read-only or not-added function of the same feature type (by the holder and by non-holders) / with a 'function' element that merely repeats the data element's function / " +
 			"by a feature that is no longer announced / over the stale connection of a disconnected holder}; " +
 			"teardown operations are followed by writes of the former holder and of a remaining holder, a reconnect after a disconnect by writes of the former holder without a new binding; two thirds of the re-announcements of a holder are followed by its disconnect + reconnect, reconnect, or the removal and re-addition of the holder's entity. " +
-			"Writes are filter-less full writes of flag-less functions or partial writes to an existing id. " +
+			"Writes are filter-less full writes of flag-less functions or partial writes to an existing id; half of the UNAUTHORISED writes of a list function carry what an authorised one may carry: a delete filter with / without selector, a partial filter with selector, or both filters in either order. " +
+			"Address forms of a write: source device = the writer's own (60 %), omitted (20 %: same writer, same verdict) or - unauthorised writers only - the device of somebody else, preferably of the peer that holds the binding with the same numbers (no effect, no notify, no event, no success result; the result count is not judged); destination device given or omitted (20 %). " +
+			"Before and after every write the data of the four functions of both feature types is compared on every server feature. " +
 			"non-trivial if at least one write was accepted, one refused, and one write was judged after a revocation (unbind, disconnect or entity removal of the holder); distinct = hash of operation kinds, features and outcomes.",
 		Assumptions: []string{
 			"message handling is synchronous (no write approval callbacks registered), so data, taps and core events are complete when the call into the stack has returned",
 			"the response to an authorised write is C01's subject: here only 'no error result, at most one success result' is asserted",
 			"a writer that is not an announced feature of a connected peer (removed entity, unknown feature, stale connection object after a disconnect) may or may not get a result; only 'no effect, no notify, no event' is asserted for it",
 			"'the written function' is the function of the cmd's data element (that is what a write changes); the optional 'function' element of the cmd does not widen the permission: a cmd that names a writable function there and carries the data of a function that is not writable is an unauthorised write",
+			"who writes is decided by the connection the datagram arrives on and the entity/feature numbers of its source address: a source address without device part names the sender's own feature; a source address that names ANOTHER device (the binding holder's) over the sender's connection does not make the holder the writer, such a write must have no effect (whether its sender counts as 'an announced feature' for the one-error-result clause is left open). A foreign device in the DESTINATION is C01's open finding D62 and not generated here",
+			"two connections that announce the SAME device address are outside the quantifier (several peers = several devices; SPINE device addresses are unique): not generated",
 			"a re-announcement that leaves addresses, roles and types as they were (no reconnect, no removal; description texts may change) is neither a deletion of a binding nor a disappearance of the writer's device or entity: the holder stays authorised, everybody else stays unauthorised",
 		},
 		Parts: []rig.Part{
@@ -55,7 +62,14 @@ var c03PeerFeats = []rkPeerFeat{
 	{Name: "z", Ent: []uint{1}, Id: 2, Typ: model.FeatureTypeTypeIdentification, Role: model.RoleTypeClient},
 	{Name: "y", Ent: []uint{1, 1}, Id: 1, Typ: model.FeatureTypeTypeDeviceClassification, Role: model.RoleTypeClient},
 	{Name: "v", Ent: []uint{1, 1}, Id: 2, Typ: model.FeatureTypeTypeIdentification, Role: model.RoleTypeClient},
+	// a third entity, so that one discovery notify can take away up to three entities at once
+	{Name: "u", Ent: []uint{2}, Id: 1, Typ: model.FeatureTypeTypeDeviceClassification, Role: model.RoleTypeClient},
+	{Name: "t", Ent: []uint{2}, Id: 2, Typ: model.FeatureTypeTypeIdentification, Role: model.RoleTypeClient},
 }
+
+// c03Ents: the entities every peer announces besides its device information entity [0].
+var c03Ents = []string{"[1]", "[1,1]", "[2]"}
+var c03EntAddr = map[string][]uint{"[1]": {1}, "[1,1]": {1, 1}, "[2]": {2}}
 
 type c03Srv struct {
 	name     string
@@ -75,13 +89,17 @@ type c03World struct {
 	srv    map[string]*c03Srv
 	pf     map[string]rkPeerFeat
 	conn   [3]bool
-	hasEnt [3]map[string]bool // "[1]", "[1,1]"
+	hasEnt [3]map[string]bool // "[1]", "[1,1]", "[2]"
 	binds  map[string]c03Holder
 	subs   map[string]bool // "peer|cli|srv"
 	val    int
 }
 
 var c03Names = []string{"S0", "S1", "S2"}
+
+// c03SnapFns: the functions whose stored data is compared before and after every write, on every server feature.
+var c03SnapFns = []model.FunctionType{model.FunctionTypeDeviceClassificationUserData, model.FunctionTypeDeviceClassificationManufacturerData,
+	model.FunctionTypeIdentificationListData, model.FunctionTypeSessionIdentificationListData}
 
 func c03Ent(f rkPeerFeat) string { return rkShort(f.Ent, 0)[:strings.Index(rkShort(f.Ent, 0), "/")] }
 
@@ -147,8 +165,11 @@ func (cw *c03World) connect(i int, reconnect bool) {
 	}
 	p.Announce(rkAnnounceList(c03PeerFeats))
 	cw.conn[i] = true
-	cw.hasEnt[i] = map[string]bool{"[1]": true, "[1,1]": true}
+	cw.hasEnt[i] = map[string]bool{"[1]": true, "[1,1]": true, "[2]": true}
 	pairs := [][2]string{{"x", "S0"}, {"z", "S1"}, {"x", "S2"}}
+	if i == 1 {
+		pairs = [][2]string{{"x", "S0"}, {"u", "S0"}, {"z", "S1"}, {"t", "S1"}, {"x", "S2"}, {"u", "S2"}}
+	}
 	if i == 2 {
 		pairs = [][2]string{{"x", "S0"}, {"y", "S0"}, {"v", "S1"}, {"z", "S1"}, {"y", "S2"}}
 	}
@@ -169,16 +190,16 @@ func (cw *c03World) announced(peer int, cli string) bool {
 
 func (cw *c03World) clientsFor(srv string) []string {
 	if cw.srv[srv].typ == model.FeatureTypeTypeIdentification {
-		return []string{"z", "v"}
+		return []string{"z", "v", "t"}
 	}
-	return []string{"x", "y"}
+	return []string{"x", "y", "u"}
 }
 
 func (cw *c03World) snapshot() map[string]string {
 	m := map[string]string{}
 	for _, n := range c03Names {
 		s := cw.srv[n]
-		for _, fn := range s.all {
+		for _, fn := range c03SnapFns { // also the functions that are foreign to the feature's type: nothing may appear there
 			m[n+"."+string(fn)] = rig.CanonAny(s.f.DataCopy(fn))
 		}
 	}
@@ -281,7 +302,7 @@ func c03Case(c *rig.Ctx) {
 		}
 		for _, s := range holders() {
 			h := cw.binds[s]
-			if h.peer != pi || what == "entity-removed" || what == "unbind" {
+			if h.peer != pi || strings.HasPrefix(what, "entity-") || what == "unbind" {
 				queue = append(queue, c03Write{peer: h.peer, cli: h.cli, srv: s, fn: writableFn(cw.srv[s]), class: "holder", after: "bystander-of-" + what})
 				break
 			}
@@ -290,10 +311,7 @@ func c03Case(c *rig.Ctx) {
 
 	announceEntity := func(pi int, ek string) {
 		p := w.Peers[pi]
-		ent := []uint{1, 1}
-		if ek == "[1]" {
-			ent = []uint{1}
-		}
+		ent := c03EntAddr[ek]
 		var feats []rig.FS
 		for _, f := range c03PeerFeats {
 			if c03Ent(f) == ek {
@@ -303,6 +321,111 @@ func c03Case(c *rig.Ctx) {
 		p.NotifyDiscovery(true, p.Discovery(feats, map[string]model.NetworkManagementStateChangeType{fmt.Sprint(ent): model.NetworkManagementStateChangeTypeAdded}, nil))
 		cw.hasEnt[pi][ek] = true
 		c.Count("op:entity-added", 1)
+	}
+
+	// dropEntities: peer pi announces that the entities `gone` (all present) exist no longer, with ONE detailed discovery
+	// notify: how = "partial" lists them with lastStateChange=removed (now and then behind an entity the stack never
+	// knew), how = "full" is a filter-less notify of the whole remaining tree (what is not listed is gone; an absent
+	// entity that is listed comes back). Shadow model, from the statement: the writer's entity disappeared => its
+	// bindings (and subscriptions) are gone for good; every other binding stays.
+	dropEntities := func(step, pi int, gone []string, how string, alwaysReAdd bool) {
+		p := w.Peers[pi]
+		goneSet := map[string]bool{}
+		for _, e := range gone {
+			goneSet[e] = true
+		}
+		var lost []string
+		lostCli := map[string]string{}
+		for _, s := range c03Names {
+			if h, ok := cw.binds[s]; ok && h.peer == pi && goneSet[c03Ent(cw.pf[h.cli])] {
+				lost = append(lost, s)
+				lostCli[s] = h.cli
+			}
+		}
+		// evidence only: where the departing entities stand in the device's own entity list
+		lastGone := ""
+		for _, e := range p.RD.Entities() {
+			if k := rkEnt(e.Address().Entity); goneSet[k] {
+				lastGone = k
+			}
+		}
+		var added []string
+		if how == "partial" {
+			var rem [][]uint
+			unknownFirst := r.Intn(6) == 0
+			if unknownFirst {
+				rem = append(rem, []uint{7})
+				c.Count("entity_removal_notifies_that_name_an_unknown_entity_first", 1)
+			}
+			for _, e := range gone {
+				rem = append(rem, c03EntAddr[e])
+			}
+			log("#%d peer%d announces %v removed (one partial notify, unknown entity [7] first: %v); bindings that go with them: %v", step, pi, gone, unknownFirst, lostCli)
+			p.NotifyDiscovery(true, p.Discovery(nil, nil, rem))
+		} else {
+			feats := []rig.FS{rig.NMFS}
+			var listed []string
+			for _, e := range c03Ents {
+				keep := cw.hasEnt[pi][e] && !goneSet[e]
+				back := !cw.hasEnt[pi][e] && r.Intn(3) == 0
+				if !keep && !back {
+					continue
+				}
+				listed = append(listed, e)
+				if back {
+					added = append(added, e)
+				}
+				for _, f := range c03PeerFeats {
+					if c03Ent(f) == e {
+						feats = append(feats, f.FS())
+					}
+				}
+			}
+			log("#%d peer%d sends a FULL detailed discovery notify listing [0] and %v: %v are gone (device's entity list before: last of them %s), %v are new; bindings that go with them: %v", step, pi, listed, gone, lastGone, added, lostCli)
+			p.NotifyDiscovery(false, p.Discovery(feats, nil, nil))
+		}
+		for _, e := range gone {
+			cw.hasEnt[pi][e] = false
+			cw.removeEntityRefs(pi, e)
+		}
+		for _, e := range added {
+			cw.hasEnt[pi][e] = true
+		}
+		teardowns++
+		what := "entity-removed"
+		if how == "full" {
+			what = "entity-dropped-by-full-notify"
+		}
+		followUps(pi, lost, what, lostCli)
+		if len(lost) > 0 && (r.Intn(2) == 0 || alwaysReAdd) { // announced again, but the binding must be gone for good
+			for _, s := range lost {
+				queue = append(queue, c03Write{peer: pi, cli: lostCli[s], srv: s, fn: writableFn(cw.srv[s]), class: "former-holder-re-added", after: what + "-and-added", readd: c03Ent(cw.pf[lostCli[s]])})
+			}
+		}
+		notLast := 0
+		for _, s := range lost {
+			if c03Ent(cw.pf[lostCli[s]]) != lastGone {
+				notLast++
+			}
+		}
+		c.Count("op:"+what, 1)
+		c.Count(fmt.Sprintf("%s:%d_entities_at_once", what, len(gone)), 1)
+		if len(lost) > 0 {
+			c.Count(fmt.Sprintf("%s:%d_entities_at_once:a_binding_holder_among_them", what, len(gone)), 1)
+		}
+		if notLast > 0 && len(gone) > 1 {
+			c.Count(what+":several_entities_at_once:holder's_entity_is_not_the_last_of_them_in_the_device's_entity_list", 1)
+		}
+		shape = append(shape, fmt.Sprintf("entrem:%s:%v:%d:%d", how, gone, len(lost), len(added)))
+		if n := p.PanicCount(); n > 0 {
+			fail("panic", "the stack panicked: %s", p.Panics[n-1])
+		}
+		for qi, o := range takeAll() {
+			if ns, _ := rkNotifies(o); len(ns) > 0 {
+				fail("entity-change/unexpected-notify", "peer %d received %s", qi, rig.JS(ns[0].Raw))
+			}
+		}
+		w.Core.Take()
 	}
 
 	doWrite := func(step int, wr c03Write) {
@@ -323,6 +446,33 @@ func c03Case(c *rig.Ctx) {
 		h, bound := cw.binds[wr.srv]
 		writeFlag, added := s.writable[wr.fn]
 		authorised := bound && h.peer == wr.peer && h.cli == wr.cli && added && writeFlag && announced
+		// address forms. Source: the writer's own device, no device part, or (unauthorised writers only) the device of
+		// somebody else - preferably of the peer that holds the binding with the same numbers. Destination: the local
+		// device or no device part. Who writes is decided by the connection and the entity/feature numbers; naming the
+		// holder's device over another connection does not make the holder the writer. (A foreign device in the
+		// DESTINATION is C01's open finding D62 and not used here.)
+		srcFull, dst := src, s.f.Address()
+		form, foreignSrc := "", false
+		if wr.cli != "unk" {
+			switch k := r.Intn(20); {
+			case k < 4:
+				src, form = rkStripDevice(src), "source-device-omitted"
+			case k < 8 && !authorised:
+				dev := []string{rig.LocalAddr, "nowhere", w.Peers[(wr.peer+1)%3].Addr, w.Peers[(wr.peer+2)%3].Addr}[r.Intn(4)]
+				form = "source-device-foreign"
+				if bound && h.peer != wr.peer && r.Intn(4) > 0 {
+					dev, form = w.Peers[h.peer].Addr, "source-device-of-the-holder"
+				}
+				c2 := *src
+				c2.Device = util.Ptr(model.AddressDeviceType(dev))
+				src, foreignSrc = &c2, true
+			}
+		}
+		if r.Intn(5) == 0 {
+			dst = rkStripDevice(dst)
+			form += "+destination-device-omitted"
+		}
+		form = strings.TrimPrefix(form, "+")
 		cw.val++
 		v := cw.val
 		ack := r.Intn(3) > 0
@@ -349,6 +499,60 @@ func c03Case(c *rig.Ctx) {
 				}
 			}
 		}
+		// an unauthorised write of a list function with the filters an authorised one may carry: delete (with and without
+		// selector), partial with selector, both. None of them may touch the data.
+		if mode == "full" && !authorised && wr.fnElem == "" && (wr.fn == model.FunctionTypeIdentificationListData || wr.fn == model.FunctionTypeSessionIdentificationListData) && r.Intn(2) == 0 {
+			del := func(withSel bool, id uint) model.FilterType {
+				f := model.FilterType{CmdControl: &model.CmdControlType{Delete: &model.ElementTagType{}}}
+				if withSel && wr.fn == model.FunctionTypeIdentificationListData {
+					f.IdentificationListDataSelectors = &model.IdentificationListDataSelectorsType{IdentificationId: util.Ptr(model.IdentificationIdType(id))}
+				} else if withSel {
+					f.SessionIdentificationListDataSelectors = &model.SessionIdentificationListDataSelectorsType{SessionId: util.Ptr(model.SessionIdType(id))}
+				}
+				return f
+			}
+			part := func(withSel bool, id uint) model.FilterType {
+				f := *model.NewFilterTypePartial()
+				if withSel && wr.fn == model.FunctionTypeIdentificationListData {
+					f.IdentificationListDataSelectors = &model.IdentificationListDataSelectorsType{IdentificationId: util.Ptr(model.IdentificationIdType(id))}
+				} else if withSel {
+					f.SessionIdentificationListDataSelectors = &model.SessionIdentificationListDataSelectorsType{SessionId: util.Ptr(model.SessionIdType(id))}
+				}
+				return f
+			}
+			empty := func() any {
+				if wr.fn == model.FunctionTypeIdentificationListData {
+					return &model.IdentificationListDataType{}
+				}
+				return &model.SessionIdentificationListDataType{}
+			}
+			one := func() any { // one element without identifier: what a selector-addressed update carries
+				if wr.fn == model.FunctionTypeIdentificationListData {
+					return &model.IdentificationListDataType{IdentificationData: []model.IdentificationDataType{{IdentificationValue: util.Ptr(model.IdentificationValueType(rkToken(v)))}}}
+				}
+				return &model.SessionIdentificationListDataType{SessionIdentificationData: []model.SessionIdentificationDataType{{IdentificationId: util.Ptr(model.IdentificationIdType(uint(v)))}}}
+			}
+			id := uint(1 + r.Intn(2))
+			switch r.Intn(5) {
+			case 0:
+				mode, cmd = "delete-filter+selector", rig.CmdFor(wr.fn, empty())
+				cmd.Filter = []model.FilterType{del(true, id)}
+			case 1:
+				mode, cmd = "delete-filter-without-selector", rig.CmdFor(wr.fn, empty())
+				cmd.Filter = []model.FilterType{del(false, 0)}
+			case 2:
+				mode, cmd = "partial-filter+selector", rig.CmdFor(wr.fn, one())
+				cmd.Filter = []model.FilterType{part(true, id)}
+			case 3:
+				mode, cmd = "partial-filter+delete-filter+selector", rig.CmdFor(wr.fn, rkPayloadOrPartial(wr.fn, v))
+				cmd.Filter = []model.FilterType{part(false, 0), del(true, 3-id)}
+			default:
+				mode, cmd = "delete-filter+selector+partial-filter", rig.CmdFor(wr.fn, rkPayloadOrPartial(wr.fn, v))
+				cmd.Filter = []model.FilterType{del(true, id), part(false, 0)}
+			}
+			cmd.Function = util.Ptr(wr.fn)
+			c.Count("unauthorised_writes_with:"+mode, 1)
+		}
 		switch {
 		case mode != "full":
 		case wr.fnElem == "match":
@@ -365,17 +569,20 @@ func c03Case(c *rig.Ctx) {
 			}
 			c.Count("function_element:writable-function-named-while-data-element-is-of-another-function", 1)
 		}
-		log("#%d write(%s,%s,ack=%v) peer%d %s -> %s.%s %s class=%s%s authorised=%v (holder %v, announced=%v, write flag=%v, added=%v)", step, mode, rkToken(v), ack, wr.peer, wr.cli, wr.srv, wr.fn, rkKey(src),
+		log("#%d write(%s,%s,ack=%v) peer%d %s -> %s.%s from %s to "+rkKey(dst)+" class=%s%s authorised=%v (holder %v, announced=%v, write flag=%v, added=%v)", step, mode, rkToken(v), ack, wr.peer, wr.cli, wr.srv, wr.fn, rkKey(src),
 			wr.class, map[bool]string{true: " after " + wr.after, false: ""}[wr.after != ""], authorised, cw.binds[wr.srv], announced, writeFlag, added)
 		before := cw.snapshot()
 		takeAll()
 		w.Core.Take()
-		mc := p.Send(model.CmdClassifierTypeWrite, src, s.f.Address(), ack, nil, cmd)
+		mc := p.Send(model.CmdClassifierTypeWrite, src, dst, ack, nil, cmd)
 		after := cw.snapshot()
 		outs := takeAll()
 		evs := w.Core.Take()
 		c.Events(1)
 		what := "write/" + wr.class
+		if form != "" {
+			what += "/" + strings.ReplaceAll(form, "+", "/")
+		}
 		key := wr.srv + "." + string(wr.fn)
 
 		// data
@@ -410,7 +617,7 @@ func c03Case(c *rig.Ctx) {
 			if res.Errors > 0 || res.Success > 1 || res.Replies+res.OtherRef > 0 || (!ack && res.Success > 0) {
 				fail(what+"/authorised-write-answered-wrongly", "responses to an authorised write: %s (ack requested: %v)", res, ack)
 			}
-		} else if announced {
+		} else if announced && !foreignSrc {
 			if res.Errors != 1 || res.Success+res.Replies+res.OtherRef != 0 {
 				sig := what + "/unauthorised-write-result-count"
 				if res.Success > 0 {
@@ -419,12 +626,16 @@ func c03Case(c *rig.Ctx) {
 				fail(sig, "an unauthorised write by an announced feature must get exactly one error result, got %s: %s", res, rig.JS(res.All))
 			}
 			for _, d := range res.All {
-				if rkKey(d.Header.AddressDestination) != rkKey(src) || rkKey(d.Header.AddressSource) != rkKey(s.f.Address()) {
+				// (a device part the request omitted may be filled in or left out in the answer)
+				if (rkKey(d.Header.AddressDestination) != rkKey(src) && rkKey(d.Header.AddressDestination) != rkKey(srcFull)) || rkKey(d.Header.AddressSource) != rkKey(s.f.Address()) {
 					fail(what+"/result-addressing", "error result goes from %s to %s, want %s to %s", rkKey(d.Header.AddressSource), rkKey(d.Header.AddressDestination), rkKey(s.f.Address()), rkKey(src))
 				}
 			}
 		} else if res.Success > 0 {
-			fail(what+"/unauthorised-write-acknowledged", "a write by a feature that is not announced was acknowledged")
+			fail(what+"/unauthorised-write-acknowledged", "a write by a feature that is not announced (or that names a device other than its own as source) was acknowledged")
+		}
+		if form != "" {
+			c.Count(fmt.Sprintf("address_form:%s:authorised=%v", form, authorised), 1)
 		}
 		// notifies: exactly the subscribers of the written feature if authorised, nobody otherwise
 		for qi, q := range w.Peers {
@@ -482,7 +693,7 @@ func c03Case(c *rig.Ctx) {
 		if authorised {
 			if len(dc) != 1 {
 				fail(what+"/authorised-write-event-count", "%d data change events for an authorised write", len(dc))
-			} else if e := dc[0]; rkFeatKey(e.P.LocalFeature) != rkKey(s.f.Address()) || e.P.Function != wr.fn || e.P.Ski != p.Ski || rkFeatKey(e.P.Feature) != rkKey(src) ||
+			} else if e := dc[0]; rkFeatKey(e.P.LocalFeature) != rkKey(s.f.Address()) || e.P.Function != wr.fn || e.P.Ski != p.Ski || rkFeatKey(e.P.Feature) != rkKey(srcFull) ||
 				e.P.CmdClassifier == nil || *e.P.CmdClassifier != model.CmdClassifierTypeWrite {
 				fail(what+"/authorised-write-event-content", "event %s does not describe the write by %s to %s.%s", e, rkKey(src), wr.srv, wr.fn)
 			}
@@ -502,7 +713,7 @@ func c03Case(c *rig.Ctx) {
 			c.Count("writes_after:"+wr.after, 1)
 		}
 		c.Count("write_class:"+wr.class, 1)
-		shape = append(shape, fmt.Sprintf("w:%s:%s:%s:%s:%s:%v", wr.class, wr.cli, wr.srv, wr.fn, strings.SplitN(mode, "=", 2)[0], authorised))
+		shape = append(shape, fmt.Sprintf("w:%s:%s:%s:%s:%s:%v", wr.class, wr.cli, wr.srv, wr.fn, strings.SplitN(mode, "=", 2)[0]+":"+form, authorised))
 	}
 
 	nOps := 15 + r.Intn(16)
@@ -532,7 +743,7 @@ func c03Case(c *rig.Ctx) {
 				continue
 			}
 			cs := cw.clientsFor(srv)
-			cli := cs[r.Intn(2)]
+			cli := cs[r.Intn(len(cs))]
 			_, bound := cw.binds[srv]
 			want := !bound && cw.announced(pi, cli)
 			f := cw.pf[cli]
@@ -551,6 +762,42 @@ func c03Case(c *rig.Ctx) {
 			}
 			c.Count("op:bind", 1)
 			shape = append(shape, fmt.Sprintf("bind:%s:%s:%v", cli, srv, ok == 1))
+
+		case roll >= 62 && roll < 66: // ---------------- a FULL discovery notify that drops one, two or three entities at once
+			if forcedEnt == "" && len(hs) > 0 && r.Intn(4) > 0 { // prefer a peer that holds a binding
+				pi = cw.binds[hs[r.Intn(len(hs))]].peer
+				p = w.Peers[pi]
+			}
+			if !cw.conn[pi] {
+				continue
+			}
+			var present []string
+			for _, e := range c03Ents {
+				if cw.hasEnt[pi][e] {
+					present = append(present, e)
+				}
+			}
+			if len(present) == 0 {
+				continue
+			}
+			r.Shuffle(len(present), func(i, j int) { present[i], present[j] = present[j], present[i] })
+			n := 1 + r.Intn(len(present))
+			if n == 1 && len(present) > 1 && r.Intn(2) == 0 {
+				n = 2
+			}
+			if forcedEnt != "" && cw.hasEnt[pi][forcedEnt] { // the holder's entity is among them, and not the only one
+				for i, e := range present {
+					if e == forcedEnt {
+						present[0], present[i] = present[i], present[0]
+					}
+				}
+				if n == 1 && len(present) > 1 {
+					n = 2
+				}
+			}
+			takeAll()
+			w.Core.Take()
+			dropEntities(step, pi, present[:n], "full", forcedEnt != "")
 
 		case roll < 66: // ---------------- write
 			srv := hs[r.Intn(len(hs))]
@@ -573,17 +820,21 @@ func c03Case(c *rig.Ctx) {
 			}
 			switch {
 			case !bound:
-				wr.class, wr.peer, wr.cli = "no-binding-on-feature", pi, cw.clientsFor(srv)[r.Intn(2)]
+				wr.class, wr.peer, wr.cli = "no-binding-on-feature", pi, cw.clientsFor(srv)[r.Intn(3)]
 			case k < 40:
 				wr.class, wr.peer, wr.cli = "holder", h.peer, h.cli
 			case k < 51:
 				wr.class, wr.peer, wr.cli = "same-numbers-from-other-peer", (h.peer+1+r.Intn(2))%3, h.cli
 			case k < 60:
 				wr.class, wr.peer = "other-client-of-holder", h.peer
-				wr.cli = map[string]string{"x": "y", "y": "x", "z": "v", "v": "z"}[h.cli]
+				for _, o := range cw.clientsFor(srv) { // another client feature of the holder's peer, same type
+					if o != h.cli && (wr.cli == "" || r.Intn(2) == 0) {
+						wr.cli = o
+					}
+				}
 			case k < 67:
 				// the holder of another server feature writes here
-				wr.class, wr.peer, wr.cli = "holder-of-other-feature", pi, cw.clientsFor(srv)[r.Intn(2)]
+				wr.class, wr.peer, wr.cli = "holder-of-other-feature", pi, cw.clientsFor(srv)[r.Intn(3)]
 				for _, o := range hs {
 					if oh := cw.binds[o]; o != srv && cw.srv[o].typ == s.typ && (oh.peer != h.peer || oh.cli != h.cli) {
 						wr.peer, wr.cli = oh.peer, oh.cli
@@ -662,7 +913,7 @@ func c03Case(c *rig.Ctx) {
 				continue
 			}
 			var present []string
-			for _, ek := range []string{"[1]", "[1,1]"} {
+			for _, ek := range c03Ents {
 				if cw.hasEnt[pi][ek] {
 					present = append(present, ek)
 				}
@@ -704,10 +955,7 @@ func c03Case(c *rig.Ctx) {
 				log("#%d peer%d sends its detailed discovery reply again (entities %v, same addresses, roles and types; descriptions %q); it holds %v", step, pi, present, desc, mine)
 				p.Announce(feats)
 			} else {
-				ent := []uint{1, 1}
-				if ek == "[1]" {
-					ent = []uint{1}
-				}
+				ent := c03EntAddr[ek]
 				var feats []rig.FS
 				for _, f := range c03PeerFeats {
 					if c03Ent(f) == ek {
@@ -743,11 +991,13 @@ func c03Case(c *rig.Ctx) {
 			}
 			// ... and the teardown that follows must find what it has to remove (and nothing else)
 			if len(mine) > 0 && r.Intn(3) > 0 {
-				switch r.Intn(4) {
+				switch r.Intn(5) {
 				case 0:
 					forced = append(forced, c03Forced{roll: 81, pi: pi}, c03Forced{roll: 87, pi: pi}) // disconnect, then reconnect
 				case 1:
 					forced = append(forced, c03Forced{roll: 87, pi: pi}) // reconnect
+				case 2:
+					forced = append(forced, c03Forced{roll: 63, pi: pi, ent: c03Ent(cw.pf[mineCli[mine[r.Intn(len(mine))]]])}) // full notify without the holder's entity
 				default:
 					forced = append(forced, c03Forced{roll: 99, pi: pi, ent: c03Ent(cw.pf[mineCli[mine[r.Intn(len(mine))]]])})
 				}
@@ -759,7 +1009,7 @@ func c03Case(c *rig.Ctx) {
 				continue
 			}
 			srv := c03Names[r.Intn(3)]
-			cli := cw.clientsFor(srv)[r.Intn(2)]
+			cli := cw.clientsFor(srv)[r.Intn(3)]
 			if len(hs) > 0 && r.Intn(3) > 0 {
 				srv = hs[r.Intn(len(hs))]
 				pi, cli = cw.binds[srv].peer, cw.binds[srv].cli
@@ -850,45 +1100,36 @@ func c03Case(c *rig.Ctx) {
 			if !cw.conn[pi] {
 				continue
 			}
-			ent := []uint{1, 1}
-			if r.Intn(3) == 0 {
-				ent = []uint{1}
-			}
+			ek := []string{"[1,1]", "[1]", "[2]", "[1,1]"}[r.Intn(4)]
 			if r.Intn(5) < 3 { // prefer announcing a removed entity again
-				if !cw.hasEnt[pi]["[1]"] {
-					ent = []uint{1}
-				} else if !cw.hasEnt[pi]["[1,1]"] {
-					ent = []uint{1, 1}
+				for _, e := range c03Ents {
+					if !cw.hasEnt[pi][e] {
+						ek = e
+						break
+					}
 				}
 			}
 			if forcedEnt != "" && cw.hasEnt[pi][forcedEnt] { // the removal that follows a re-announcement
-				ent = map[string][]uint{"[1]": {1}, "[1,1]": {1, 1}}[forcedEnt]
+				ek = forcedEnt
 			}
-			ek := rkShort(ent, 0)
-			ek = ek[:strings.Index(ek, "/")]
 			takeAll()
 			if cw.hasEnt[pi][ek] {
-				log("#%d peer%d announces entity %s removed", step, pi, ek)
-				p.NotifyDiscovery(true, p.Discovery(nil, nil, [][]uint{ent}))
-				cw.hasEnt[pi][ek] = false
-				var lost []string
-				lostCli := map[string]string{}
-				for _, s := range c03Names {
-					if h, ok := cw.binds[s]; ok && h.peer == pi && c03Ent(cw.pf[h.cli]) == ek {
-						lost = append(lost, s)
-						lostCli[s] = h.cli
+				// one, two or three entities go with one notify: a partial one that lists them as removed, or a full
+				// (filter-less) one that simply does not list them any more
+				gone := []string{ek}
+				if r.Intn(5) < 2 {
+					for _, e := range c03Ents {
+						if e != ek && cw.hasEnt[pi][e] && r.Intn(3) > 0 {
+							gone = append(gone, e)
+						}
 					}
+					r.Shuffle(len(gone), func(i, j int) { gone[i], gone[j] = gone[j], gone[i] })
 				}
-				cw.removeEntityRefs(pi, ek)
-				teardowns++
-				followUps(pi, lost, "entity-removed", lostCli)
-				if len(lost) > 0 && (r.Intn(2) == 0 || forcedEnt != "") { // announced again, but the binding must be gone for good
-					for _, s := range lost {
-						queue = append(queue, c03Write{peer: pi, cli: lostCli[s], srv: s, fn: writableFn(cw.srv[s]), class: "former-holder-re-added", after: "entity-removed-and-added", readd: ek})
-					}
+				how := "partial"
+				if r.Intn(5) < 2 {
+					how = "full"
 				}
-				c.Count("op:entity-removed", 1)
-				shape = append(shape, fmt.Sprintf("entrem:%s:%d", ek, len(lost)))
+				dropEntities(step, pi, gone, how, forcedEnt != "")
 			} else {
 				log("#%d peer%d announces entity %s added", step, pi, ek)
 				announceEntity(pi, ek)
